@@ -392,10 +392,19 @@ impl<C: HCfg> Node<C> {
             Sess::P(s) => s.verif_connect_status(),
             Sess::S(_) => Vec::new(),
         };
+        // the newest frame for which the session holds every connected player's input, computed
+        // from the connection-status accessor (not from confirmed_frame(), which is itself under
+        // test)
         let conf = match &self.sess {
-            Sess::P(s) => s.confirmed_frame(),
+            Sess::P(_) => conn.iter().filter(|c| !c.0).map(|c| c.1).min().unwrap_or(i32::MAX),
             Sess::S(_) => i32::MAX,
         };
+        if let Sess::P(s) = &self.sess {
+            let api = s.confirmed_frame();
+            if ck & CK_C03 != 0 && api != conf {
+                cx.v("C03", "confirmed-frame-api-wrong", ni, format!("confirmed_frame() = {api} but the smallest last-received frame over the connected players is {conf} (statuses {conn:?})"));
+            }
+        }
         let lockstep = w == 0 && !is_spec;
         self.resim.clear();
         self.first_sims.clear();
